@@ -15,7 +15,7 @@ def main():
         s = vf.tlc("ScanWalk", sc, workers=4, collect=False, timeout=300)
         if s.violated != inv:
             raise vf.NotAVerdict("sanity invariant %s not violated: vacuous model" % inv)
-    fams = ["ScanWalk-F1-skip.cfg", "ScanWalk-F2-git.cfg", "ScanWalk-F3-paths.cfg", "ScanWalk-F4-size.cfg", "ScanWalk-F5-links.cfg"]
+    fams = ["ScanWalk-F1-skip.cfg", "ScanWalk-F2-git.cfg", "ScanWalk-F3-paths.cfg", "ScanWalk-F4-size.cfg", "ScanWalk-F5-links.cfg", "ScanWalk-F8-rootsize.cfg"]
     if ck.thorough():
         fams = [f.replace(".cfg", "-t.cfg") if os.path.exists(os.path.join(vf.SPEC, "cfg", f.replace(".cfg", "-t.cfg"))) else f for f in fams]
         fams += [f for f in ["ScanWalk-F6-mixed-t.cfg"] if os.path.exists(os.path.join(vf.SPEC, "cfg", f))]
